@@ -118,6 +118,14 @@ impl<B: RingBuf<Item = Tag>> Sut for RingSut<B> {
         e["op"] == "drop_buffer" || (self.growing && e["op"] == "push")
     }
 
+    fn cleanup_ops(&self) -> Vec<Value> {
+        if self.buf.is_some() {
+            vec![json!({"op": "drop_buffer"})]
+        } else {
+            Vec::new()
+        }
+    }
+
     fn random_op(&self, rng: &mut Rng) -> Value {
         let b = match &self.buf {
             Some(b) => b,
